@@ -297,7 +297,7 @@ def replay(path):
             app = c01._RecApp(rng_for(k, "c07-replay"))
             h.connection(stream, app, mode="halfclose", segments=case["segments"], segment_delay=0.02, timeout=6.0)
             h.close()
-            v = c01.judge_worker(app.calls, msgs, judge_reject=False)
+            v = c01.judge_worker_full(run, stream, app.calls, msgs, judge_reject=False)
             if v:
                 print("calls:", [(c["method"], c["uri"][:40], len(c.get("body", b"")), c.get("body_error")) for c in app.calls])
                 break
